@@ -1,3 +1,4 @@
+import ChipFiring.Theory.Acyclic
 import ChipFiring.Theory.OrientInv
 import ChipFiring.Theory.LinEq
 /-
@@ -142,45 +143,11 @@ theorem divisor_add_reverse (G : Graph n) (hG : G.WF) (o r : Orient n) (hinv : I
   have hv : (G.val v : Int) = ∑ u, (G.adj v u : Int) := by rw [hG.val_eq v]; push_cast; rfl
   rw [hv]; linarith
 
-/-- T9: the divisor of an acyclic orientation (in-degree minus one) is unwinnable -/
+/-- T9: the divisor of an acyclic orientation (in-degree minus one) is unwinnable
+    (proof in `Theory/Acyclic.lean`) -/
 theorem acyclic_unwinnable (G : Graph n) (hs : ∀ v w, G.adj v w = G.adj w v) (hn : 0 < n)
     (dir : Fin n → Fin n → Bool) (h : OAcyclic G dir) :
-    ¬ Winnable G (fun v => indeg G dir v - 1) := by
-  obtain ⟨pos, hacyc⟩ := h
-  rintro ⟨E, ⟨s, rfl⟩, hE⟩
-  have hne : (Finset.univ : Finset (Fin n)).Nonempty := ⟨⟨0, hn⟩, mem_univ _⟩
-  obtain ⟨vmax, -, hmax⟩ := Finset.exists_max_image (Finset.univ : Finset (Fin n)) s hne
-  have hmax' : ∀ w, s w ≤ s vmax := fun w => hmax w (mem_univ w)
-  let S : Finset (Fin n) := Finset.univ.filter (fun v => s v = s vmax)
-  have hSne : S.Nonempty := ⟨vmax, by simp [S]⟩
-  obtain ⟨v, hvS, hvmin⟩ := Finset.exists_min_image S pos hSne
-  have hv : s v = s vmax := by simpa [S] using hvS
-  have hEv := hE v
-  simp only [applyScript] at hEv
-  have h1 : indeg G dir v ≤ ∑ w, (G.adj v w : Int) * (s v - s w) := by
-    unfold indeg
-    apply Finset.sum_le_sum
-    intro w _
-    have hm0 : (0:Int) ≤ (G.adj v w : Int) := by positivity
-    by_cases hw : s w = s vmax
-    · have hwS : w ∈ S := by simp [S, hw]
-      have hpos := hvmin w hwS
-      have hterm : (G.adj v w : Int) * (s v - s w) = 0 := by rw [hv, hw]; ring
-      rw [hterm]
-      split
-      · rename_i hd
-        by_cases hm : 0 < G.adj w v
-        · have := hacyc w v hd hm; omega
-        · have : G.adj w v = 0 := by omega
-          simp [this]
-      · exact le_refl _
-    · have hlt : s w < s vmax := lt_of_le_of_ne (hmax' w) hw
-      have h1 : (1:Int) ≤ s v - s w := by rw [hv]; linarith
-      have : (G.adj w v : Int) = (G.adj v w : Int) := by rw [hs w v]
-      split
-      · rw [this]; nlinarith
-      · nlinarith
-  linarith
+    ¬ Winnable G (fun v => indeg G dir v - 1) := CF.acyclic_unwinnable G hs hn dir h
 
 /-- the direction predicate stored in an orientation object -/
 def dirOf (o : Orient n) : Fin n → Fin n → Bool := fun u v => decide (o.st u v = 1)
